@@ -107,6 +107,13 @@ pub fn compute_corpus() -> Vec<Opts> {
     let mut h = Opts::new(P::Seq(vec![P::Switch(Names::short('a')), P::Guard(P::arg(Names::long("num"), Ty::U32).bx(), GuardK::Lt10).opt()]));
     h.cfg.help_names = Some(Names { shorts: vec!['?'], longs: vec!["ayuda".into()], envs: vec![], help: None, long_first: false });
     out.push(h);
+    // short names of two and three bytes (clusters are cut at character boundaries)
+    out.push(Opts::new(P::Seq(vec![P::Switch(Names::short('é')), P::Switch(Names::short('€')), P::Switch(Names::short('v')), P::arg(Names::short('ß'), Ty::Os).opt()])));
+    // chained adjacent commands: a command that fails on a foreign item is run again on a
+    // narrower range of the line (nothing but the outcome may reach the streams)
+    let eat = P::Cmd { name: "eat".into(), shorts: vec![], longs: vec![], inner: Box::new(Opts::new(P::Seq(vec![P::pos(Ty::Os).opt()]))), adjacent: true, help: None };
+    let sleep = P::Cmd { name: "sleep".into(), shorts: vec![], longs: vec![], inner: Box::new(Opts::new(P::Seq(vec![P::arg(Names::long("time"), Ty::U32).opt()]))), adjacent: true, help: None };
+    out.push(Opts::new(P::Seq(vec![P::Switch(Names::short('v')), P::Alt(vec![eat, sleep]).many()])));
     out
 }
 
@@ -128,6 +135,34 @@ fn alphabet_for(o: &Opts) -> Vec<Tok> {
     a.push(Tok::s("--help"));
     a.push(Tok::s("--version"));
     a.push(Tok::s("--bpaf-complete-rev=0"));
+    // short names that take more than one byte: clusters of them, alone and next to an ASCII name
+    fn shorts(v: &Value, out: &mut Vec<char>) {
+        match v {
+            Value::Object(m) => {
+                for (k, x) in m {
+                    if k == "shorts" {
+                        if let Some(xs) = x.as_array() {
+                            out.extend(xs.iter().filter_map(|c| c.as_str().and_then(|c| c.chars().next())));
+                        }
+                    } else {
+                        shorts(x, out);
+                    }
+                }
+            }
+            Value::Array(xs) => xs.iter().for_each(|x| shorts(x, out)),
+            _ => {}
+        }
+    }
+    let mut names = vec![];
+    shorts(&serde_json::to_value(&o.p).unwrap_or(Value::Null), &mut names);
+    let ascii = names.iter().copied().find(|c| c.is_ascii());
+    for c in names.iter().copied().filter(|c| !c.is_ascii()) {
+        a.push(Tok::s(&format!("-{}{}", c, c)));
+        if let Some(x) = ascii {
+            a.push(Tok::s(&format!("-{}{}", c, x)));
+            a.push(Tok::s(&format!("-{}{}{}", x, c, c)));
+        }
+    }
     // an inline non-UTF-8 value for the first long argument
     fn first_long_arg(p: &P) -> Option<String> {
         match p {
@@ -213,8 +248,17 @@ fn check_case(unit: &Value, id: usize, o: &Opts, level: Option<&crate::conv::Lev
     });
     let raw = match raw {
         Ok(r) => r,
-        Err(_) => {
-            ctx.s.skipped += 1; // panics are C04's business
+        Err(e) => {
+            // no prediction (panics as such are C04's business); what the property says about
+            // the process still holds: it ends with status 0 or 1, never any other way
+            if let Some(obs) = spawn(id, arg0, argv) {
+                ctx.s.nontrivial += 1;
+                if obs.status != Some(0) && obs.status != Some(1) {
+                    ctx.violation(viol("every-outcome-is-one-of-the-classes", unit, id, arg0, argv, "exit status 0 (value, help, version, completion) or 1 (failure with a message)".into(), format!("run_inner panicked ({}); the process ended with status {:?}, stderr {:?}", e, obs.status, String::from_utf8_lossy(&obs.stderr))));
+                }
+            } else {
+                ctx.s.skipped += 1;
+            }
             return;
         }
     };
